@@ -89,7 +89,18 @@ fn prepare(opts: &Opts, prefix: &[Step]) -> Result<Table, String> {
 fn unchanged_after(opts: &Opts, prefix: &[Step], frames: &[Frame]) -> Result<(), String> {
     let t = prepare(opts, prefix)?;
     let before = run::snapshot(&t);
-    let lines: Vec<String> = frames.iter().map(|f| f.hex()).collect();
+    // the corrupted frames arrive bare, as '*...;', with a receiver time stamp, with a leading blank (decoration must
+    // not let a frame slip past the parity check)
+    let lines: Vec<String> = frames
+        .iter()
+        .enumerate()
+        .map(|(i, f)| match i.wrapping_add(f.bits as usize) % 5 {
+            0 => format!("*{};", f.hex()),
+            1 => format!("@{:012X}{};", (f.bits >> 7) as u64 & 0xFFFF_FFFF_FFFF, f.hex()),
+            2 => format!(" {}", f.hex().to_lowercase()),
+            _ => f.hex(),
+        })
+        .collect();
     run::run_lines(opts, &t, &lines).map_err(|e| format!("reader failed: {:?}", e))?;
     let after = run::snapshot(&t);
     if before == after {
@@ -148,6 +159,9 @@ fn run(c: &mut Ctx) {
         if di % 3 == 2 {
             opts.d = 0; // every sweep empties the table: a rejected frame that advanced the sweep counter would show
         }
+        if di % 4 == 1 {
+            opts.fmt = Some(["sbs", "beast", "avr"][di % 3].to_string()); // -F is declared by the program; parity applies regardless
+        }
         // prefix history containing the aircraft itself and one other
         let addr = base.address();
         let pre = c.draw(1, proptest::collection::vec((prop_oneof![Just(addr), Just(0x4840D6u32)]).prop_flat_map(|a| alphabet::frame_any(a)), 0..12));
@@ -157,6 +171,10 @@ fn run(c: &mut Ctx) {
             return;
         }
         let mut masks = enumerated_masks(base.len, &inner);
+        // the parity field wiped to all zeros / all ones / replaced by the data CRC of another frame
+        let pi = base.bits & 0xFF_FFFF;
+        masks.push((pi, "parity_field_zeroed"));
+        masks.push((pi ^ 0xFF_FFFF, "parity_field_ones"));
         // generated heavier patterns
         for (start, bitsv, w) in randoms {
             let len = base.len;
